@@ -129,7 +129,7 @@ def run_one(case):
             at_ = (sum(case["rs"]) // 5) % 4
             W = sp.linop.Wavelet(vary_seq(shape, at_), axes=vary_seq(axes, at_), wave_name=name,
                                  level=level)
-            with structured((sum(case["rs"]) // 3) % 9 if sum(case["rs"]) % 2 else 0):
+            with structured((sum(case["rs"]) // 3) % 10 if sum(case["rs"]) % 2 else 0):
                 x0_ = crandn(rng, shape, dt if dt.kind != "i" else np.float64)
             if dt.kind == "i":
                 # real data held in an integer array (counts, labels, raw ADC samples): the
